@@ -30,7 +30,8 @@ RULE = ('edge lists: exhaustive lists of <= 2 edges over 3 identifiers (int and 
         'reciprocal, self-loop, zero, negative, dyadic and boolean weights x flags x shape x matrix_only, list and ndarray '
         'inputs, adjacency lists and dicts; CSV files with each delimiter (tab , ; space and an explicit |), 0..3 header lines '
         '(# / % / mixed / other characters through comments=), comment lines and blank lines between and after the rows, names '
-        'containing another candidate delimiter, more than n_scan rows, with and without final newline, numeric (also beyond '
+        'containing another candidate delimiter or a comment character, CRLF / CR line ends, blank lines of other white space, '
+        'non-ASCII names, quoted fields (spec line only), more than n_scan rows, with and without final newline, numeric (also beyond '
         '2^53) and string identifiers, delimiter given / given as sep / inferred, the three layouts (all with the expected '
         'edges as a spec line; files whose delimiter is genuinely ambiguous: run line only); datasets with csr / ndarray / '
         'pickled attributes saved and loaded through absolute / relative / ~ / pathlib / trailing-slash folder names, into '
@@ -38,17 +39,21 @@ RULE = ('edge lists: exhaustive lists of <= 2 edges over 3 identifiers (int and 
         'files of every extension and a sub-folder, the '
         'bundle functions into a non-empty folder; path pairs; in-memory tar archives with hostile member names and with '
         'symbolic-link / hard-link / directory members, everything created under the scratch root being observed without '
-        'following links; GraphML documents (weight key of type int / long / float / double / boolean or absent, node and '
+        'following links and compared with the files expected (refusal vs acceptance exactly); GraphML documents (weight_key= '
+        'weight / cost / w with decoy keys, keys relying on the DTD defaults (no for / attr.name / attr.type, for=all), weight '
+        'key of type int / long / float / double / boolean or absent, node and '
         'edge data of other keys, keys for node / edge / all / graph, a node key named like the weight key, canonical ids). '
         'A case is non-trivial when the call succeeds on an input with at least two edges (ingestion), two attributes '
         '(persistence) or a member name containing a separator or dots (extraction); distinct = distinct (function, input, flags)')
 ASSUMPTIONS = [
     'numpy / scipy are the substrate: np.array coercion of a list of tuples, np.unique, csr_matrix((data,(row,col))) summing '
-    'duplicates, A + A.T, astype; np.genfromtxt and csv.reader split unquoted lines at the delimiter (no quote characters)',
+    'duplicates, A + A.T, astype; np.genfromtxt and csv.reader split unquoted lines at the (single-character) delimiter; '
+    'files with quoted fields are checked through spec lines only (the model reader does not honour quotes)',
     'identifiers are integers in the int64 range or strings; strings that numpy reads as numbers are only generated in '
     'canonical integer form (no "01", "1e3", "nan", "1_0", "1.0"): the spelling of numeric-looking strings is not preserved '
     'by from_edge_list (excluded input, stated in the status file)',
-    'weights are integers or dyadic rationals (float64 sums exact)',
+    'weights are integers or dyadic rationals of magnitude at most 2^53 (sknetwork holds weights in float64: sums exact; '
+    'larger integer weights are rounded on the CSV / string route, by design of the float weights)',
     'np.save / np.load / save_npz / load_npz / pickle round-trip their payload; os.listdir returns the files in some order',
     'tarfile.extractall(filter="data") is trusted for link members (nothing is created outside the folder); the harness '
     'monitors it by observing the whole scratch root after each extraction',
@@ -168,7 +173,7 @@ def enc_result(res):
                                          enc_names(res.get('names_col')))
 
 
-ERRORS = (ValueError, IndexError, TypeError, KeyError, AttributeError)
+ERRORS = (ValueError, IndexError, TypeError, KeyError, AttributeError, OverflowError)
 
 
 def call(f):
@@ -330,13 +335,13 @@ def csv_text(rows, delim, header, final_newline):
 
 def lines_of(text):
     """The lines of a file as `readlines()` sees them, without their terminator."""
-    lines = text.split('\n')
+    lines = text.replace('\r\n', '\n').replace('\r', '\n').split('\n')      # universal newlines of text mode
     if lines and lines[-1] == '':
         lines = lines[:-1]
     return lines
 
 
-def csv_case(text, lines, args, fl, edges, tag):
+def csv_case(text, lines, args, fl, edges, tag, spec_only=False):
     """from_csv on a file with content `text`; `edges` (or None) are the rows as identifiers/weights for the spec."""
     from sknetwork.data import from_csv
     lines = lines_of(text)
@@ -355,7 +360,7 @@ def csv_case(text, lines, args, fl, edges, tag):
                              '_' if args.get('sep') is None else enc_str(args['sep']),
                              enc_str(args.get('comments') or '#%'),
                              args.get('data_structure') or '_')
-    run = 'c18.csv %s %s %s' % (a_tok, enc_flags(fl), enc_strs(lines))
+    run = None if spec_only else 'c18.csv %s %s %s' % (a_tok, enc_flags(fl), enc_strs(lines))
     spec = None
     early = None
     if edges is not None:
@@ -619,7 +624,7 @@ def extract_case(members, tag, depth=3):
                 any(('/' in m or '.' in m) for m in members), desc, canon='paths')
 
 
-def extract_links_case(members, tag, depth=3):
+def extract_links_case(members, tag, depth=3, expect=None, as_path=False):
     """An archive with link / directory members: `members` is a list of dicts {'name', 'type' in file|sym|hard|dir,
     'target'}. Everything that exists under the scratch root after the extraction is observed without following
     links: a regular file found outside the destination folder is a failing input."""
@@ -657,14 +662,22 @@ def extract_links_case(members, tag, depth=3):
     with warnings.catch_warnings():
         warnings.simplefilter('ignore')
         with tarfile.open(fileobj=buf, mode='r') as tar:
+            outcome = None
             try:
-                L.safe_extract(tar, dest)
+                from pathlib import Path
+                L.safe_extract(tar, Path(dest) if as_path else dest)
                 impl = 'ok accepted'
+                outcome = 'ok'
+            except tarfile.FilterError:
+                impl = 'ok accepted'               # the member check passed; tarfile's filter refused a member
+                outcome = 'refused'
             except Exception as e:     # noqa: BLE001
                 if type(e) is Exception:           # safe_extract's own refusal is a bare Exception
                     impl = 'err Exception'
+                    outcome = 'check-refused'
                 else:
-                    impl = 'ok accepted'           # the member check passed; tarfile / the OS refused a member
+                    impl = 'err ' + type(e).__name__   # anything else is not a verdict: compared with the model
+                    outcome = 'error'
     files = []
     for dp, dn, fn in os.walk(root, followlinks=False):
         for f in fn:
@@ -676,23 +689,43 @@ def extract_links_case(members, tag, depth=3):
     run = 'c18.extract_check %s %s %s' % (enc_str(root), enc_str(dest), enc_strs(names))
     spec = 'c18.spec_inside %s %s' % (enc_str(dest), enc_strs(files))
     sig = {'entry': 'safe_extract', 'links': sorted({m.get('type', 'file') for m in members} - {'file'})}
-    desc = {'f': 'safe_extract_links', 'members': members, 'depth': depth}
+    desc = {'f': 'safe_extract_links', 'members': members, 'depth': depth,
+            'expect': None if expect is None else [expect[0], list(expect[1])], 'as_path': as_path}
     shutil.rmtree(root, ignore_errors=True)
-    return Case(('extract-links', json.dumps(members, sort_keys=True), depth), sig, run, impl, spec, True, desc)
+    c = Case(('extract-links', json.dumps(members, sort_keys=True), depth, as_path), sig, run, impl, spec, True, desc)
+    early = None
+    if expect is not None:
+        got = (outcome, sorted(os.path.relpath(f, dest) for f in files))
+        want = (expect[0], sorted(expect[1]))
+        if got != want:
+            early = 'archive with link / directory members: expected %s with the files %s, observed %s with %s' % (
+                want[0], want[1], got[0], got[1])
+    return c, early
 
 
+# (members, expected outcome with extraction filters, regular files expected on disk relative to the folder):
+# 'refused' = tarfile's data filter stops at the offending member (what was extracted before it stays),
+# 'ok' = every member is extracted
 LINK_ARCHIVES = [
-    [{'name': 'lnk', 'type': 'sym', 'target': '{ROOT}/outside'}, {'name': 'lnk/evil.txt'}],
-    [{'name': 'l2', 'type': 'sym', 'target': '..'}, {'name': 'l2/evil2.txt'}],
-    [{'name': 'x', 'type': 'sym', 'target': '.'}, {'name': 'x/../evil3.txt'}],
-    [{'name': 'sub', 'type': 'dir'}, {'name': 'sub/l', 'type': 'sym', 'target': '../..'}, {'name': 'sub/l/evil4.txt'}],
-    [{'name': 'in', 'type': 'sym', 'target': 'real'}, {'name': 'real', 'type': 'dir'}, {'name': 'in/ok.txt'}],
-    [{'name': 'd', 'type': 'dir'}, {'name': 'd/f.txt'}, {'name': 'h', 'type': 'hard', 'target': 'd/f.txt'}],
-    [{'name': 'h', 'type': 'hard', 'target': '{ROOT}/outside/nothing'}],
-    [{'name': 'l', 'type': 'sym', 'target': '{DEST}'}, {'name': 'l/inside.txt'}],
-    [{'name': 'a', 'type': 'sym', 'target': 'b'}, {'name': 'b', 'type': 'sym', 'target': '{ROOT}/outside'}, {'name': 'a/evil5.txt'}],
-    [{'name': 'l', 'type': 'sym', 'target': '../../outside'}, {'name': 'l/evil6.txt'}],
-    [{'name': 'plain.txt'}, {'name': 'dir', 'type': 'dir'}, {'name': 'dir/inner.npz'}],
+    ([{'name': 'lnk', 'type': 'sym', 'target': '{ROOT}/outside'}, {'name': 'lnk/evil.txt'}], 'refused', []),
+    ([{'name': 'l2', 'type': 'sym', 'target': '..'}, {'name': 'l2/evil2.txt'}], 'refused', []),
+    ([{'name': 'x', 'type': 'sym', 'target': '.'}, {'name': 'x/../evil3.txt'}], 'refused', []),
+    ([{'name': 'sub', 'type': 'dir'}, {'name': 'sub/l', 'type': 'sym', 'target': '../..'}, {'name': 'sub/l/evil4.txt'}],
+     'refused', []),
+    ([{'name': 'in', 'type': 'sym', 'target': 'real'}, {'name': 'real', 'type': 'dir'}, {'name': 'in/ok.txt'}], 'ok', ['real/ok.txt']),
+    ([{'name': 'd', 'type': 'dir'}, {'name': 'd/f.txt'}, {'name': 'h', 'type': 'hard', 'target': 'd/f.txt'}], 'ok', ['d/f.txt', 'h']),
+    ([{'name': 'h', 'type': 'hard', 'target': '{ROOT}/outside/nothing'}], 'refused', []),
+    ([{'name': 'l', 'type': 'sym', 'target': '{DEST}'}, {'name': 'l/inside.txt'}], 'refused', []),
+    ([{'name': 'a', 'type': 'sym', 'target': 'b'}, {'name': 'b', 'type': 'sym', 'target': '{ROOT}/outside'}, {'name': 'a/evil5.txt'}],
+     'refused', []),
+    ([{'name': 'l', 'type': 'sym', 'target': '../../outside'}, {'name': 'l/evil6.txt'}], 'refused', []),
+    ([{'name': 'plain.txt'}, {'name': 'dir', 'type': 'dir'}, {'name': 'dir/inner.npz'}], 'ok', ['plain.txt', 'dir/inner.npz']),
+    ([{'name': 'first.txt'}, {'name': 'l', 'type': 'sym', 'target': '..'}, {'name': 'l/evil7.txt'}], 'refused', ['first.txt']),
+    # what a NetSet / Konect archive looks like: a directory member, then its files
+    ([{'name': 'wikivitals', 'type': 'dir'}, {'name': 'wikivitals/adjacency.npz'}, {'name': 'wikivitals/names.npy'},
+      {'name': 'wikivitals/meta.p'}], 'ok', ['wikivitals/adjacency.npz', 'wikivitals/names.npy', 'wikivitals/meta.p']),
+    ([{'name': 'a', 'type': 'dir'}, {'name': 'a/b', 'type': 'dir'}, {'name': 'a/b/out.tsv'}, {'name': 'a/README'}], 'ok',
+     ['a/b/out.tsv', 'a/README']),
 ]
 
 
@@ -998,6 +1031,67 @@ def gen_csv_cases(ctx, out, earlies):
         out.append(c)
         earlies.append((c, e))
         ctx.count('csv-second-candidate-inside')
+    # a comment character inside a name (C#, 50%): a comment is a line that *starts* with a comment character
+    for _ in range(60 if quick else 800):
+        d = rng.choice([',', ';', '\t', ' '])
+        cm = rng.choice(['#', '#', '%', '!'])
+        words = ['C' + cm, 'F' + cm, 'Java', 'Go', '50' + cm, 'a' + cm + 'b', 'R', cm.join(['x', 'y'])]
+        k = rng.randint(1, 5)
+        wm = rng.choice(['none', 'small'])
+        edges = [(rng.choice(words), rng.choice(words), None if wm == 'none' else rng.choice(WEIGHTS[:3])) for _ in range(k)]
+        if not any(cm in a or cm in b for a, b, _ in edges):
+            edges[0] = (words[0], edges[0][1], edges[0][2])
+        rows = [[a, b] if w is None else [a, b, fmt_w(w)] for a, b, w in edges]
+        header = rng.choice([[], [cm + ' languages'], [('%' if cm == '#' else '#') + ' other comment character']]) if cm != '!' \
+            else rng.choice([[], ['! languages']])
+        text, _ = csv_text(rows, d, header, rng.random() < 0.7)
+        args = {} if rng.random() < 0.5 else {'delimiter': d}
+        if cm == '!':
+            args['comments'] = '!'
+        c, e = csv_case(text, None, args, rand_flags(rng), edges, tag())
+        c.sig['rows_layout'] = 'comment-char-in-name'
+        out.append(c)
+        earlies.append((c, e))
+        ctx.count('csv-comment-char-in-name')
+    # Windows (CRLF) and old Mac (CR) line ends, with string and numeric names; blank lines made of other white space
+    for _ in range(60 if quick else 800):
+        d = rng.choice(delims[:4])
+        numeric = rng.random() < 0.4
+        pool = sorted(rng.sample(range(0, 9), 4)) if numeric else ['a', 'b', 'cx', 'By', 'A2', 'NY']
+        edges = rand_edges(rng, pool, rng.randint(1, 5), rng.choice(['none', 'small']))
+        rows = [d.join([str(a), str(b)] + ([] if w is None else [fmt_w(w)])) for a, b, w in edges]
+        nl = rng.choice(['\r\n', '\r\n', '\r'])
+        lines = rng.choice([[], ['# header']]) + rows
+        if rng.random() < 0.3 and len(rows) > 1:
+            lines.insert(rng.randint(1, len(lines) - 1), rng.choice(['\xa0', '\x0b', ' \x0c', '\x1c', '\x85 ']))
+        text = nl.join(lines) + (nl if rng.random() < 0.7 else '')
+        args = {} if rng.random() < 0.5 else {'delimiter': d}
+        c, e = csv_case(text, None, args, rand_flags(rng), [(str(a), str(b), w) for a, b, w in edges], tag())
+        c.sig['rows_layout'] = 'crlf' if nl == '\r\n' else 'cr'
+        out.append(c)
+        earlies.append((c, e))
+        ctx.count('csv-line-ends:' + ('crlf' if nl == '\r\n' else 'cr'))
+    # names outside ASCII; a byte order mark (run line only: the first name then carries it)
+    for rows in ([['é', '中'], ['中', '\U0001F600']], [['Zürich', 'Genève', '2'], ['Genève', 'Łódź', '3']]):
+        for d in (',', '\t'):
+            text, _ = csv_text(rows, d, [], True)
+            edges = [(r[0], r[1], None if len(r) == 2 else Fraction(r[2])) for r in rows]
+            c, e = csv_case(text, None, {}, mkflags(directed=True), edges, tag())
+            out.append(c)
+            earlies.append((c, e))
+            ctx.count('csv-non-ascii')
+    c, e = csv_case('\ufeff0,1\n1,2\n', None, {}, mkflags(directed=True), None, tag())
+    out.append(c)
+    earlies.append((c, None))
+    # quoted fields (spec line only: the model's reader does not honour quotes): known finding F-csv-quoted
+    for text, edges in (('"Smith, J",Bob\nAlice,Carol\n', [('Smith, J', 'Bob', None), ('Alice', 'Carol', None)]),
+                        ('a,"b, c",2\n"b, c",d,3\n', [('a', 'b, c', Fraction(2)), ('b, c', 'd', Fraction(3))])):
+        for args in ({}, {'delimiter': ','}):
+            c, e = csv_case(text, None, args, mkflags(directed=True), edges, tag(), spec_only=True)
+            c.sig['rows_layout'] = 'quoted-field'
+            out.append(c)
+            earlies.append((c, e))
+            ctx.count('csv-quoted-field')
     # two candidate delimiters are consistent (the repo's own test file 'f, e, 5'): the tie rule of the inference
     for _ in range(40 if quick else 400):
         d2 = rng.choice([', ', '; ', ',\t', ' ,', ';;', ', ;'])
@@ -1144,9 +1238,11 @@ def gen_path_cases(ctx, out, earlies):
         k += 1
         out.append(extract_case([m], 's%d' % k))
         ctx.count('extract:single-member')
-    for i, ms in enumerate(LINK_ARCHIVES):
+    for i, (ms, verdict, files) in enumerate(LINK_ARCHIVES):
         for depth in (2, 3):
-            out.append(extract_links_case(ms, 'l%d_%d' % (i, depth), depth))
+            c, e = extract_links_case(ms, 'l%d_%d' % (i, depth), depth, expect=(verdict, files), as_path=(depth == 3))
+            out.append(c)
+            earlies.append((c, e))
             ctx.count('extract:link-members')
     for _ in range(60 if quick else 1500):
         k += 1
@@ -1232,13 +1328,18 @@ def cases_of_desc(d, rng=None):
                              history=[[tuple(a) for a in h] for h in d.get('history', [])])
         return cs, [(cs[-1], e)]
     if f == 'is_within_directory':
-        os.makedirs(d['cwd'], exist_ok=True) if d['cwd'].startswith(SCRATCH_PARENT) else None
-        cwd = d['cwd'] if os.path.isdir(d['cwd']) else scratch()
+        # the directory of the recorded run is gone: any existing directory of the same depth serves (the case
+        # is about strings; only relative paths depend on the current directory)
+        cwd = os.path.join(scratch(), 'cwd', 'in')
+        os.makedirs(cwd, exist_ok=True)
         return [within_case(cwd, d['directory'], d['target'])], []
     if f == 'safe_extract':
         return [extract_case(d['members'], 'replay', d.get('depth', 3))], []
     if f == 'safe_extract_links':
-        return [extract_links_case(d['members'], 'replay', d.get('depth', 3))], []
+        c, e = extract_links_case(d['members'], 'replay', d.get('depth', 3),
+                                  expect=None if d.get('expect') is None else (d['expect'][0], d['expect'][1]),
+                                  as_path=d.get('as_path', False))
+        return [c], [(c, e)]
     if f == 'from_graphml':
         from harness import c18_graphml
         c, e = c18_graphml.graphml_case(d['doc'], 'replay')
@@ -1319,6 +1420,10 @@ def search(ctx, pending):
             for i, m in enumerate(HOSTILE):
                 for depth in (2, 3):
                     out.append(extract_case([m], 'srch%d_%d' % (i, depth), depth))
+            for i, (ms, verdict, files) in enumerate(LINK_ARCHIVES):
+                c, e = extract_links_case(ms, 'srchl%d' % i, 3, expect=(verdict, files))
+                out.append(c)
+                earlies.append((c, e))
         if 'from_graphml' in entries:
             from harness import c18_graphml
             c18_graphml.gen_cases(sub, out, earlies, exhaustive=True)
